@@ -62,7 +62,12 @@ func conflictSet(i int64, seed int64) []file {
 	r := prng.For(seed, "C05", "conflict", i)
 	pick := func(xs ...string) string { return xs[r.Intn(len(xs))] }
 	var fs []file
-	switch i % 10 {
+	switch i % 11 {
+	case 10: // statements kept in Entry.Extra (if-feature) on grouping members, on the uses and inside augments, from several modules
+		fs = append(fs, file{"g.yang", "module g { namespace \"urn:g\"; prefix g; feature ipv4; feature ipv6; grouping addr { leaf address { if-feature ipv4; " + pick("", "if-feature ipv6;") + " type string; } container opts { if-feature ipv6; leaf o { type string; } } leaf plain { type string; } } }"})
+		for _, n := range []string{"east", "west", "north"}[:2+r.Intn(2)] {
+			fs = append(fs, file{n + ".yang", fmt.Sprintf("module %s { namespace \"urn:%s\"; prefix %s; import g { prefix b; } feature %s; container %s { uses b:addr { if-feature %s; %s } } augment /%s:%s { if-feature %s; leaf extra { if-feature b:ipv4; type string; } } }", n, n, n, n, n, n, pick("", "if-feature b:ipv6;", "when \"x\";"), n, n, n)})
+		}
 	case 9: // several multi-line errors that share their position and first line and differ only in the continuation lines
 		rev := pick("", "revision 2020-01-01;")
 		fs = append(fs, file{"m.yang", "module m { namespace \"urn:m\"; prefix m; " + rev + "\n  grouping g { leaf a { type string; } leaf b { type string; } }\n  grouping h1 { leaf a { type int8; } }\n  grouping h2 { leaf a { type boolean; } leaf b { type boolean; } }\n  grouping h3 { leaf b { type uint8; } }\n  container x { container c { uses " + pick("h1", "h2") + "; uses g; } }\n  container y { container c { uses " + pick("h2", "h3") + "; uses g; } }\n  container z { container c { uses " + pick("h1", "h3") + "; uses g; } }\n}\n"})
@@ -183,7 +188,10 @@ func Run(j *job.Job, s *job.Sink) {
 		if j.Family == "conflict" {
 			fs = conflictSet(c, j.Seed)
 		} else {
-			g := &schema.Gen{R: r, Typedefs: true}
+			// the generated family also gets cyclic and unknown type references (rings of one
+			// to three typedefs: what is reported for a ring must not depend on where the
+			// walk over the typedef dictionary happens to enter it)
+			g := &schema.Gen{R: r, Typedefs: true, TypeErrors: c%4 == 3}
 			g.Build()
 			for _, m := range g.Mods {
 				t := schema.Print(m)
